@@ -250,20 +250,49 @@ def run_unit(unit, verify_args, tier, seed, prefixes=None, pre=None):
             res["tool_errors"].append(f"pre-step {pre} failed: {p.stdout[-1500:]} {p.stderr[-500:]}")
             return res
     pulls = []
-    for round_ in range(4):
-        r_ = _run_unit_once(unit, verify_args, tier, seed, prefixes, res, pulls)
+    demote = {}
+    for round_ in range(6):
+        r_ = _run_unit_once(unit, verify_args, tier, seed, prefixes, res, pulls, demote)
         if r_ is None:
             return res
         more = [x for x in derive_pulls(r_) if x not in pulls]
-        if not more or round_ == 3:
+        dem = {} if more else {k: v for k, v in derive_demotions(res, r_).items() if k not in demote}
+        if (not more and not dem) or round_ == 5:
             return res
-        # R25: retry with the missing functions pulled in (without contracts)
+        # R25: retry with the missing functions pulled in (without contracts); demotion: retry with the functions whose bodies the
+        # verifier does not accept emitted as assumed contracts (the properties that tag them become undecided)
         pulls = pulls + more
+        demote.update(dem)
         keep = {k: res[k] for k in ("unit",)}
         res.clear()
         res.update({"unit": unit, "failures": [], "tool_errors": [], "trusted": [], "rewrites": [], "functions": [],
                     "notdecided": [], "bounded": []})
     return res
+
+
+def derive_demotions(res, diags):
+    """the unit did not compile / was rejected before verification: map every error to the function body it lies in.
+    -> {(file, path): short reason}; empty when some error lies outside a function taken from /repo (template text, items)"""
+    vr = res.get("verus", {})
+    if not (vr.get("encountered-vir-error") or (vr.get("encountered-error") and not vr.get("errors"))):
+        return {}
+    meta = res.get("meta")
+    if not meta:
+        return {}
+    out = {}
+    errors = [d for d in diags if d.get("level") == "error" and not d.get("message", "").startswith("aborting due to")]
+    for d in errors:
+        hit = None
+        sps = [sp for sp in d.get("spans", []) if sp.get("is_primary")] or d.get("spans", [])
+        for sp in sps:
+            o = extract.origin_of(meta, sp["line_start"])
+            if o and o.get("kind") in ("body", "sig") and o.get("file") and not str(o.get("file")).startswith("@"):
+                hit = (o["file"], o["fn"].split("#")[0])
+                break
+        if hit is None:
+            return {}
+        out.setdefault(hit, d.get("message", "")[:160])
+    return out
 
 
 def derive_pulls(diags):
@@ -284,11 +313,11 @@ def derive_pulls(diags):
     return out
 
 
-def _run_unit_once(unit, verify_args, tier, seed, prefixes, res, pulls):
+def _run_unit_once(unit, verify_args, tier, seed, prefixes, res, pulls, demote=None):
     """one extraction + verification round; returns the diagnostics of the main run (None when nothing was run)"""
     try:
-        rs, meta = extract.build(unit, BUILD, vacuity=False, pulls=pulls)
-        rs_vac, meta_vac = extract.build(unit, BUILD, vacuity=True, pulls=pulls)
+        rs, meta = extract.build(unit, BUILD, vacuity=False, pulls=pulls, demote=demote)
+        rs_vac, meta_vac = extract.build(unit, BUILD, vacuity=True, pulls=pulls, demote=demote)
     except extract.AnchorLost as ex:
         res["tool_errors"].append(f"anchor lost: {ex}")
         return None
@@ -331,6 +360,18 @@ def _run_unit_once(unit, verify_args, tier, seed, prefixes, res, pulls):
                 res["tool_errors"].append(f"unstable proof: verifies with solver seed {seed} but not with seed {extra} ({v2.get('errors')} errors)")
     res["verus"] = out.get("verification-results", {})
     failures, terrs = classify(unit, rs, meta, out, diags)
+    # modularity: an obligation that fails in a function which calls a helper the change introduced (pulled in by R25 without a
+    # contract) cannot be told apart from "the helper needs a contract": undecided, never an alarm
+    unc = {(f["file"], f["path"].split("#")[0]): f.get("calls_uncontracted") for f in meta["functions"] if f.get("calls_uncontracted")}
+    kept = []
+    for f in failures:
+        key = (f.get("file"), str(f.get("fn", "")).split("#")[0])
+        if key in unc:
+            terrs.append(f"needs contract: {f.get('obligation')} fails in a function that calls {', '.join(unc[key])}, "
+                         f"for which no contract exists in this run (a helper the change introduced, pulled in by R25)")
+        else:
+            kept.append(f)
+    failures = kept
     res["failures"] = failures
     res["tool_errors"] += terrs
     # per function solver time (best effort: by name suffix)
